@@ -38,12 +38,17 @@ def _count(name):
     uses[name] = uses.get(name, 0) + 1
 
 
+# code that stands in for an optional dependency of the library and opens connections on its behalf (wsverif/standins_socks)
+STANDIN_PREFIX = os.path.join(os.path.dirname(os.path.dirname(os.path.abspath(__file__))), "standins_socks") + os.sep
+
+
 def _in_repo(depth=2):
     try:
         f = sys._getframe(depth)
     except ValueError:
         return False
-    return f.f_code.co_filename.startswith(PREFIX)
+    fn = f.f_code.co_filename
+    return fn.startswith(PREFIX) or fn.startswith(STANDIN_PREFIX)
 
 
 def _sim(depth=3):
